@@ -197,6 +197,9 @@ def check(ax, case, rec):
         if c["lseed"] % 5 == 0:
             scale = 0.0  # edge of the documented domain: a switched-off load (e.g. the first value of a density / scale ramp)
             rec.label("scale=0")
+        elif (c["lseed"] // 5 + len(X)) % 4 == 1:
+            scale *= 1e-10  # a density in a small-number unit system (t / mm^3): the load is small, not absent
+            rec.label("density-of-the-order-1e-10")
         first = vals if not c["preload"] else rng.uniform(-1, 1, ncomp) * np.array([1, 1, 0 if axi else 1])[:ncomp]
         if ax == "gravity":
             g0 = first.tolist()
@@ -265,6 +268,14 @@ def check(ax, case, rec):
                 f_.values = np.asfortranarray(f_.values)
             rec.label("fortran-ordered-field-values")
         vals = rng.uniform(-1, 1, (len(pts), d))
+        one_d = False
+        if (c["lseed"] // 3 + len(X)) % 3 == 0 and d >= 2 and len(X) > d:
+            # one load vector for all loaded points, given as a 1-d sequence with one entry per component - and exactly as many points
+            # are loaded as the field has components (the shapes (points,) and (components,) coincide)
+            pts = np.sort(rng.choice(len(X), size=d, replace=False))
+            one_d = True
+            vals = np.tile(rng.uniform(-1, 1, d), (d, 1))
+            rec.label("one-load-vector-for-as-many-points-as-components")
         kw = {"apply_on": apply_on} if apply_on else {}
         ids = pts
         # the selection of points in the styles numpy indexing accepts: ids as array / list / from the end, or a boolean point mask
@@ -278,13 +289,14 @@ def check(ax, case, rec):
             pts = np.zeros(len(X), bool)
             pts[ids] = True
             rec.label("points-as-boolean-mask")
+        vgiven = vals[0].tolist() if one_d else vals
         if c["preload"]:
             it = fem.PointLoad(fc, points=pts, values=rng.uniform(-1, 1, (len(ids), d)), axisymmetric=axi, **kw)
             it.assemble.vector(fc)
-            it.update(vals)
+            it.update(vgiven)
             rec.label("updated-values")
         else:
-            it = fem.PointLoad(fc, points=pts, values=vals, axisymmetric=axi, **kw)
+            it = fem.PointLoad(fc, points=pts, values=vgiven, axisymmetric=axi, **kw)
         r = np.asarray(it.assemble.vector(fc).toarray()).ravel()
         ref = np.zeros((len(X), d))
         pts = ids
